@@ -412,6 +412,28 @@ SMALL_ENCODERS = {
     ],
     "SATEncoder._encode_ne_var": ["common = set(var1.bool_vars.keys()) & set(var2.bool_vars.keys())", "for val in common:\n        self._clauses.append([-var1.bool_vars[val], -var2.bool_vars[val]])"],
 }
+LARGER_ENCODERS = {
+    "SATEncoder._encode_sum_eq": [
+        "if n == 0:\n        if target != 0:\n            self._clauses.append([])\n        return",
+        "if target < min_sum or target > max_sum:\n        self._clauses.append([])\n        return",
+        "min_sum = sum((v.lb for v in variables))",
+        "max_sum = sum((v.ub for v in variables))",
+        "if n == 1:\n        self._encode_eq_const(variables[0], target)\n        return",
+        "val2 = target - val1",
+        "if val2 < v2.lb or val2 > v2.ub:\n                self._clauses.append([-v1.bool_vars[val1]])\n            else:\n                self._clauses.append([-v1.bool_vars[val1], v2.bool_vars[val2]])",
+        "partial_sum = self._create_int_var(variables[0].lb + variables[1].lb, variables[0].ub + variables[1].ub)",
+        "s = v1 + v2",
+        "self._clauses.append([-variables[0].bool_vars[v1], -variables[1].bool_vars[v2], partial_sum.bool_vars[s]])",
+        "self._encode_sum_eq([partial_sum] + list(variables[2:]), target)",
+    ],
+    "SATEncoder._encode_capacity_constraint": [
+        "for subset in combinations(range(n), size):",
+        "if sum((demands[i] for i in subset)) > capacity:",
+        "for smaller in combinations(subset, smaller_size):\n                        if sum((demands[i] for i in smaller)) > capacity:\n                            is_minimal = False\n                            break",
+        "if is_minimal:\n                    self._clauses.append([-lits[i] for i in subset])",
+        "n = len(lits)",
+    ],
+}
 DFS_ARMS = {
     "eq_const": ["if val not in domains[var.name]:\n            return False", "domains[var.name] = {val}"],
     "ne_const": ["domains[var.name].discard(val)"],
@@ -430,6 +452,22 @@ def check_small_semantics(ctx: Ctx, oid: str, encoder: bool = True, dfs: bool = 
             n_app = t.count("self._clauses.append(")
             want = sum(fr.count("self._clauses.append(") for fr in frags)
             ctx.ob(oid, "R18 table", f, f"{q.split('.')[1]} emits exactly the clauses of its definition", all(fr in t for fr in frags) and n_app == want, f"{n_app} emission site(s), {want} expected", node=f.node)
+    if encoder:
+        for q, frags in LARGER_ENCODERS.items():
+            f = ctx.func("cp_encoder", q)
+            t = ast.unparse(f.node)
+            missing = [fr.split("\n")[0] for fr in frags if fr not in t]
+            ctx.ob(oid, "R18 table", f, f"{q.split('.')[1]} has every case of its definition", not missing, f"not found: {missing[:2]}", node=f.node)
+        cc = ctx.func("cp_encoder", "SATEncoder._encode_capacity_constraint")
+        sizes = [n for n in own_nodes(cc.node) if isinstance(n, ast.For) and ast.unparse(n.target) == "size"]
+        ok = len(sizes) == 1 and isinstance(sizes[0].iter, ast.Call) and ast.unparse(sizes[0].iter.func) == "range" and len(sizes[0].iter.args) == 2 and ast.unparse(sizes[0].iter.args[0]) == "1"
+        if ok:
+            hi = sizes[0].iter.args[1]
+            capped = isinstance(hi, ast.BinOp) and isinstance(hi.op, ast.Add) and ast.unparse(hi.right) == "1" and isinstance(hi.left, ast.Call) and ast.unparse(hi.left.func) == "min" and "n" in [ast.unparse(a) for a in hi.left.args]
+            ok = ast.unparse(hi) == "n + 1" or capped
+            if capped:
+                ctx.note("_encode_capacity_constraint caps the subset size with min(n, ..): whether the cap keeps every minimal overloading subset is not decided here")
+        ctx.ob(oid, "R12 NO-CARDINALITY-CUTOFF", cc, "overloading subsets are enumerated from size 1 up to all n tasks", ok, f"`{ast.unparse(sizes[0].iter) if sizes else '?'}`: the only minimal overloading subset may be the largest one", node=sizes[0] if sizes else cc.node)
     if dfs:
         pc = ctx.func("cp", "Model._propagate_constraint")
         chain = next((x for x in pc.node.body if isinstance(x, ast.If) and "kind" in names_in(x.test)), None)
